@@ -455,6 +455,135 @@ def _d_mean_buffer():
     return ['    return 0']     # buffer in some other (e.g. the data's) dtype
 
 
+# ---- round 4: memory effects (which array a call writes to) --------------------------------
+_COPYING = ('dataset.measurements.copy()', 'np.array(dataset.measurements)',
+            'np.array(dataset.measurements, dtype=float)', 'np.copy(dataset.measurements)',
+            'deepcopy(dataset.measurements)', 'copy.deepcopy(dataset.measurements)')
+
+
+def _parse_input_ifs():
+    fn = _func('rdm/calc.py', '_parse_input')
+    none_if = [n for n in fn.body if isinstance(n, ast.If)
+               and ast.unparse(n.test) == 'descriptor is None']
+    rm_if = [n for n in fn.body if isinstance(n, ast.If) and ast.unparse(n.test) == 'remove_mean']
+    if len(none_if) != 1 or not none_if[0].orelse or len(rm_if) != 1 or rm_if[0].orelse:
+        raise Underivable('_parse_input: `if descriptor is None: .. else: ..` / `if remove_mean:` not found')
+    if fn.body.index(none_if[0]) > fn.body.index(rm_if[0]):
+        raise Underivable('_parse_input: centring precedes the choice of the working array')
+    rets = [n for n in fn.body if isinstance(n, ast.Return)]
+    if len(rets) != 1 or ast.unparse(rets[0].value) != '(measurements, desc)':
+        raise Underivable('_parse_input: does not return (measurements, desc)')
+    return none_if[0], rm_if[0]
+
+
+def _d_parse_shares():
+    """1 = the working array `_parse_input` returns may be the dataset's own array"""
+    none_if, _ = _parse_input_ifs()
+
+    def working(stmts):
+        hits = [s for s in stmts if isinstance(s, ast.Assign) and len(s.targets) == 1
+                and 'measurements' in [n.id for n in ast.walk(s.targets[0]) if isinstance(n, ast.Name)]]
+        if len(hits) != 1 or any(isinstance(s, (ast.AugAssign, ast.For, ast.While)) for s in stmts):
+            raise Underivable('_parse_input: working array is not assigned exactly once per branch')
+        return hits[0]
+    a = working(none_if.body)
+    if not _is_name(a.targets[0], 'measurements'):
+        raise Underivable('_parse_input: descriptor=None branch does not assign `measurements`')
+    v = ast.unparse(a.value)
+    no_desc = 0 if v in _COPYING else 1      # anything else built from the dataset may share memory
+    b = working(none_if.orelse)
+    vb = ast.unparse(b)
+    if vb != 'measurements, desc, _ = average_dataset_by(dataset, descriptor)':
+        raise Underivable(f'_parse_input: descriptor branch is `{vb}`')
+    # average_dataset_by returns the buffer it allocates itself (see leaf mean_buffer_float)
+    avg = _func('data/computations.py', 'average_dataset_by')
+    rets = [n for n in avg.body if isinstance(n, ast.Return)]
+    if len(rets) != 1 or not ast.unparse(rets[0].value).startswith('(average,'):
+        raise Underivable('average_dataset_by: does not return its own buffer `average`')
+    _d_mean_buffer()
+    return ['    if has_desc == 1:', '        return 0', '    else:', f'        return {no_desc}']
+
+
+def _d_centre_in_place():
+    """1 = the centring statement of `_parse_input` writes into the working array"""
+    _, rm_if = _parse_input_ifs()
+    if len(rm_if.body) != 1:
+        raise Underivable('_parse_input: `if remove_mean:` has more than one statement')
+    st = rm_if.body[0]
+    if isinstance(st, ast.Assign) and len(st.targets) == 1 and _is_name(st.targets[0], 'measurements') \
+            and isinstance(st.value, ast.BinOp) and 'out=' not in ast.unparse(st.value):
+        return ['    return 0']       # `measurements = measurements - ...` binds a new array
+    if isinstance(st, ast.AugAssign) or 'out=' in ast.unparse(st) \
+            or (isinstance(st, ast.Assign) and isinstance(st.targets[0], ast.Subscript)):
+        return ['    return 1']
+    raise Underivable(f'_parse_input: centring statement `{ast.unparse(st)}`')
+
+
+def _writes_to(fn, var):
+    """does `fn` write into the array first bound to `var` (before `var` is rebound)?"""
+    def stores(node):
+        for n in ast.walk(node):
+            if isinstance(n, ast.AugAssign) and var in [m.id for m in ast.walk(n.target)
+                                                        if isinstance(m, ast.Name)]:
+                return True
+            if isinstance(n, (ast.Assign, ast.AnnAssign)):
+                tg = n.targets if isinstance(n, ast.Assign) else [n.target]
+                for t in tg:
+                    if isinstance(t, (ast.Subscript, ast.Attribute)) and \
+                            var in [m.id for m in ast.walk(t) if isinstance(m, ast.Name)]:
+                        return True
+            if isinstance(n, ast.Call):
+                for k in n.keywords:
+                    if k.arg == 'out' and var in [m.id for m in ast.walk(k.value)
+                                                  if isinstance(m, ast.Name)]:
+                        return True
+                if isinstance(n.func, ast.Attribute) and _is_name(n.func.value, var) and \
+                        n.func.attr in ('sort', 'fill', 'put', 'itemset', 'resize', 'partition',
+                                        'setfield', 'byteswap'):
+                    return True
+        return False
+    seen = False
+    for st in fn.body:
+        if not seen:
+            if isinstance(st, ast.Assign) and isinstance(st.value, ast.Call) \
+                    and isinstance(st.value.func, ast.Name) and st.value.func.id == '_parse_input':
+                t = st.targets[0]
+                if not (isinstance(t, ast.Tuple) and _is_name(t.elts[0], var)):
+                    raise Underivable(f'{fn.name}: result of _parse_input is not unpacked into {var}')
+                seen = True
+            continue
+        if stores(st):
+            return True
+        if isinstance(st, ast.Assign) and any(_is_name(t, var) for t in st.targets):
+            return False        # rebound to a new array; later writes do not reach the input
+        if isinstance(st, (ast.For, ast.While, ast.If, ast.With, ast.Try)):
+            # conservative: a rebinding inside a block is not tracked
+            pass
+    if not seen:
+        raise Underivable(f'{fn.name}: no `{var}, desc = _parse_input(...)`')
+    return False
+
+
+def _d_est_writes():
+    """per estimator: 1 = it writes into the array `_parse_input` handed to it"""
+    lines = []
+    for k, (fname, code) in enumerate(ESTIMATORS.items()):
+        fn = _func('rdm/calc.py', fname)
+        var = None
+        for n in ast.walk(fn):
+            if isinstance(n, ast.Assign) and isinstance(n.value, ast.Call) \
+                    and isinstance(n.value.func, ast.Name) and n.value.func.id == '_parse_input' \
+                    and isinstance(n.targets[0], ast.Tuple) and isinstance(n.targets[0].elts[0], ast.Name):
+                var = n.targets[0].elts[0].id
+        if var is None:
+            raise Underivable(f'{fname}: `x, desc = _parse_input(...)` not found')
+        w = 1 if _writes_to(fn, var) else 0
+        lines.append(f"    {'if' if k == 0 else 'elif'} est == {code}:")
+        lines.append(f'        return {w}')
+    lines += ['    else:', '        return 0']
+    return lines
+
+
 _DERIVED_FUNCS = [
     # name, params, body builder
     ('dispatch', ['method'], _d_dispatch),
@@ -493,6 +622,9 @@ _DERIVED_FUNCS = [
     ('wrap_vector', ['is_seq', 'ndim', 'len_value'], _d_wrap_vector),
     ('averaging_occurred', ['n_unique', 'n_obs'], _d_averaging),
     ('mean_buffer_float', [], _d_mean_buffer),
+    ('parse_shares', ['has_desc'], _d_parse_shares),
+    ('centre_in_place', [], _d_centre_in_place),
+    ('est_writes', ['est'], _d_est_writes),
 ]
 
 
@@ -554,4 +686,8 @@ LEAVES += [
     _leaf('wrapVector', 'wrap_vector', {'is_seq': 'Nat', 'ndim': 'Nat', 'len_value': 'Nat'}, 'Nat'),
     _leaf('averagingOccurred', 'averaging_occurred', {'n_unique': 'Nat', 'n_obs': 'Nat'}, 'Nat'),
     _leaf('meanBufferFloat', 'mean_buffer_float', {}, 'Nat'),
+    # round 4: memory effects
+    _leaf('parseShares', 'parse_shares', {'has_desc': 'Nat'}, 'Nat'),
+    _leaf('centreInPlace', 'centre_in_place', {}, 'Nat'),
+    _leaf('estWrites', 'est_writes', {'est': 'Nat'}, 'Nat'),
 ]
